@@ -190,6 +190,48 @@ func C05(c *Ctx) {
 				}
 			}
 		}
+		if found == 0 {
+			// the failure branch may have been extracted: look for the flip loop in the helpers fn calls (two levels);
+			// what must accompany the loop (global state, timeout-list removal) may then be in the helper or around
+			// the helper call in fn
+			isGS := storesToField("TransactionInfo", "GlobalState")
+			isRem := func(x ssa.Instruction) bool {
+				call, ok := x.(ssa.CallInstruction)
+				return ok && strings.HasSuffix(core.CalleeName(call), ".removeFromTimeoutList")
+			}
+			for _, site := range core.Calls(fn) {
+				h := core.StaticCallee(site)
+				if h == nil || h == fn || !c.P.InModule(h) || core.PkgOf(h) != core.PkgOf(fn) {
+					continue
+				}
+				for _, rf := range c.regionOf(h, 1) {
+					for _, b := range rf.fn.Blocks {
+						for _, in := range b.Instrs {
+							mu, ok := in.(*ssa.MapUpdate)
+							if !ok || !isChildMap(mu.Map) {
+								continue
+							}
+							over, idx, ok := rangeOver(mu.Key)
+							if !ok || idx != 1 || !isChildMap(over) {
+								continue
+							}
+							found++
+							key := shortFn(fn) + "/" + rf.fn.Name() + ": every child flipped"
+							r.Check(unconditionalInLoop(rf.fn, in), rule, key, c.P.Pos(in.Pos()), "ChildTxInfo[k] = status for every k of the range, unconditionally (loop in a helper of "+shortFn(fn)+")", "the loop over the children skips some child: not every child is moved to the failure/rollback status")
+							isThis := func(x ssa.Instruction) bool { return x == in }
+							isSite := func(x ssa.Instruction) bool { return x == ssa.Instruction(site) }
+							inHelperGS := precedesAll(rf.fn, isGS, isThis) && len(sites(rf.fn, isGS)) > 0 || followsAll(rf.fn, isThis, isGS, true)
+							inCallerGS := precedesAll(fn, isGS, isSite) && len(sites(fn, isGS)) > 0 || followsAll(fn, isSite, isGS, true)
+							r.Check(inHelperGS || inCallerGS, rule, shortFn(fn)+" (flip branch): GlobalState set with the children", c.P.Pos(in.Pos()), "a GlobalState assignment accompanies the child flip loop on every successful path (in the helper or around its call)", "children are flipped without the global state being set on some path")
+							if needTimeoutRemoval {
+								okRem := followsAll(rf.fn, isThis, isRem, false) || followsAll(fn, isSite, isRem, false)
+								r.Check(okRem, rule, shortFn(fn)+" (flip branch): removeFromTimeoutList after child flip loop", c.P.Pos(in.Pos()), "every path from the flip loop to a return passes removeFromTimeoutList (in the helper or after its call)", "a failed group stays in the timeout list: it is rolled back again at its timeout height")
+							}
+						}
+					}
+				}
+			}
+		}
 		r.Floor(rule, "flip loops in "+shortFnName(spec), found, 1)
 	}
 	checkFlip("R05.2", tmPrefix+"BeginMultiTXs", true)
